@@ -176,7 +176,8 @@ def families(tier):
              ('tree', 'u-vcpu-disk@1.28', True),
              ('two', 'u-vcpu-disk@1.16', False),
              ('two-i', '1+2-isolate', False), ('tree', 'u+1-none', False),
-             ('two', 'u-vcpu-disk', True)]
+             ('two', 'u-vcpu-disk', True),
+             ('flat', 'u-disk', False), ('flat', '1-disk', False)]
     extra = [('tree', 'u-vcpu-disk', False), ('tree', 'u-vcpu-disk', True),
              ('tree', 'u-vcpu-disk@1.28', True),
              ('two', 'u-vcpu-disk@1.28', False),
